@@ -97,6 +97,9 @@ def h_run(P, kinds, props, steps=3, mech="nbc", hibernation=True, L=2, generatio
             _purity(P, w, tree)
         if "C09" in props:
             for _, d in tree.all_demes:
+                if not d.current_population:
+                    P.oblige("C09.centroid_is_mean_of_current_population", d.centroid is None)
+                    continue
                 want = np.mean([ind.genome for ind in d.current_population], axis=0)
                 P.oblige("C09.centroid_is_mean_of_current_population", bool(np.array_equal(d.centroid, want)))
         if "C07" in props:
@@ -168,16 +171,21 @@ def _purity(P, w, tree):
         "all_individuals": lambda: [(i.fitness, tuple(i.genome)) for i in tree.all_individuals],
         "r5s_solutions": lambda: [(i.fitness, tuple(i.genome)) for i in tree.r5s_solutions],
         "n_evaluations": lambda: tree.n_evaluations,
-        "deme.best": lambda: [(d.best_individual.fitness, d.best_current_individual.fitness) for _, d in tree.all_demes],
-        "deme.centroid": lambda: [tuple(d.centroid) for _, d in tree.all_demes],
+        "deme.best": lambda: [(d.best_individual.fitness, d.best_current_individual.fitness if d.best_current_individual else None)
+                              for _, d in tree.all_demes],
+        "deme.centroid": lambda: [None if d.centroid is None else tuple(d.centroid) for _, d in tree.all_demes],
         "deme.best_fitness_by_metaepoch": lambda: [d.best_fitness_by_metaepoch for _, d in tree.all_demes],
         "deme.history": lambda: [len(d.history) for _, d in tree.all_demes],
     }
     for name, f in accessors.items():
         before = _observable_state(w, tree)
-        a = f()
-        mid = _observable_state(w, tree)
-        b = f()
+        try:
+            a = f()
+            mid = _observable_state(w, tree)
+            b = f()
+        except Exception as e:  # an accessor that raises on a reachable tree gives no answer at all
+            P.oblige(f"pure.{name}.answers_on_every_reachable_tree", False)
+            continue
         after = _observable_state(w, tree)
         P.oblige(f"pure.{name}.no_state_change_no_evaluation", before == mid == after)
         P.oblige(f"pure.{name}.same_answer_twice", a == b)
